@@ -440,6 +440,47 @@ pub fn huge_v(dir: &str, ops_path: &str, impl_path: &str, v4: bool) -> Vec<Strin
     violations
 }
 
+/// C15 at a size where the free list is long: a version-3 file in which one repetition releases more than 65 536
+/// sectors at once (a 34 MiB stream, 69 632 sectors of 512 bytes), repeated; the backing file must have the
+/// same length after every repetition from the first on (nothing else lives in the file, so even the
+/// "from the second repetition on" reading has nothing to explain a growth with).
+pub fn huge_cycle() -> Vec<String> {
+    let mb = 1usize << 20;
+    let mut real = Real::new();
+    let mut violations = vec![];
+    let mut lens: Vec<usize> = Vec::new();
+    let mut lines = vec!["create 3".to_string(), format!("putpat {} {} 9", enc("/keep"), 700)];
+    for rep in 0..4 {
+        lines.push(format!("putpat {} {} {}", enc("/big"), 34 * mb + 77, rep + 1));
+        lines.push(format!("rm {}", enc("/big")));
+        lines.push("len".to_string());
+    }
+    for (i, line) in lines.iter().enumerate() {
+        if line == "len" {
+            lens.push(real.image().len());
+            continue;
+        }
+        let observed = real.exec(line);
+        if observed == "panic" || observed.starts_with("err") {
+            violations.push(format!("history 0 (seed 0) step {}: {} gave {}", i, short(line), short(&observed)));
+            break;
+        }
+    }
+    println!("STAT huge_cycle_lens {}", lens.iter().map(|l| l.to_string()).collect::<Vec<_>>().join(","));
+    for k in 1..lens.len() {
+        if lens[k] != lens[0] {
+            violations.push(format!("history 0 (seed 0) step {}: cycle [create a 34 MiB stream; remove it] in a version-3 file: the file has {} bytes after repetition {} but had {} after repetition 1 (all of it had been released)", 3 * k + 3, lens[k], k + 1, lens[0]));
+            break;
+        }
+    }
+    if violations.is_empty() {
+        if let Some(v) = reopen_violation(&mut real) {
+            violations.push(format!("history 0 (seed 0) step {}: after the huge cycles: {}", lines.len(), v));
+        }
+    }
+    violations
+}
+
 /// C07 at the size where the tables change shape: two handles on different streams append alternately until a
 /// version-3 file passes 110 FAT sectors (first DIFAT sector), with bystanders of every kind (a regular stream
 /// with state bits, a mini stream, a storage with a stream, a stream created late); every result is compared with
